@@ -142,6 +142,15 @@ class Polarity(object):
             self.free(c.a[1])
             self.free(c.a[2])
             return
+        from . import c05 as _c05
+
+        if _c05._no_hits([(c, True)]) or _c05._no_hits([(c, False)]):
+            # `if hits[0].size == 0: return []`: whether there are hits at all is decided by the hit matrix, whose
+            # comparisons with the tolerance are judged where they are made
+            for z in tm.walk(c):
+                if z.op == "call" and call_name(z) == "np.where" and len(z.a[1]) == 1:
+                    self.free(z.a[1][0])
+            return
         if self.only_forwarded(c):
             # e.g. `if matching.size == 0`: the tolerance reaches the test only as an argument forwarded to a checked callee
             self.free(c)
@@ -415,6 +424,16 @@ def rule_maxincludes(ctx):
             if lst is not None and lst.op == "loop":
                 it = s.loops[lst.a[0]][1]
                 order = it.op == "call" and call_name(it) == "beat._get_reference_beat_variations" and any(u.op == "upd" and u.a[1] == "method:append" for u in tm.walk(lst.a[3]))
+                it0 = it.a[1][0] if it.op == "call" and call_name(it) == "builtins.enumerate" and it.a[1] and (len(it.a[1]) == 1 or tm.is_const(it.a[1][1], 0)) else it
+                if not order and it0.op == "call" and call_name(it0) == "beat._get_reference_beat_variations":
+                    # a result vector with one slot per variation, filled at the running index (from 0): slot 0 is variation 0
+                    ups = []
+                    b_ = lst.a[3]
+                    while b_.op == "upd":  # the stores into the result vector itself (not those inside the stored values)
+                        if b_.a[1] == "setitem":
+                            ups.append(b_)
+                        b_ = b_.a[0]
+                    order = bool(ups) and all((u.a[2].op == "idx" and u.a[2].a[0] == lst.a[0]) or (u.a[2].op == "sub" and tm.is_const(u.a[2].a[1], 0) and u.a[2].a[0].op == "iter" and u.a[2].a[0].a[0] is it) for u in ups)
             elif lst is not None and lst.op == "comp" and lst.a[0] == "list" and len(lst.a[2]) == 1 and not lst.a[3]:
                 # one element per variation, in the order of the variations (append loop or comprehension)
                 it = lst.a[2][0]
@@ -501,7 +520,31 @@ def _melody_twin(ctx, R):
     fa = ctx.program.func("melody.raw_chroma_accuracy", R)
     guards_a = [[(c.id, p) for c, p in symeval.pc_conds(r.pc)] for r in a.returns]
     guards_b = [[(c.id, p) for c, p in symeval.pc_conds(r.pc)] for r in b.returns]
-    yield ob(R, fa, "melody.raw_chroma_accuracy:guards", guards_a == guards_b, "raw chroma accuracy has the same emptiness/zero exits as raw pitch accuracy")
+    same_guards = guards_a == guards_b
+    if not same_guards:
+        # the same exits arranged differently (one combined test / a chain of early returns): compare the conditions
+        # under which each function returns its constant, as predicates
+        from .. import finmodel
+
+        def exit_pred(s_):
+            alts = []
+            for r in s_.returns:
+                if not is_lit(r.term):
+                    continue
+                cs = [c if p else tm.unop("not", c) for c, p in symeval.pc_conds(r.pc)]
+                if not cs:
+                    return None
+                alts.append(cs[0] if len(cs) == 1 else tm.mk("bool", "and", *cs))
+            if not alts:
+                return None
+            return alts[0] if len(alts) == 1 else tm.mk("bool", "or", *alts)
+
+        pa, pb = exit_pred(a), exit_pred(b)
+        lits_a = sorted(str(lit(r.term)) for r in a.returns if is_lit(r.term))
+        lits_b = sorted(str(lit(r.term)) for r in b.returns if is_lit(r.term))
+        if pa is not None and pb is not None and set(lits_a) == set(lits_b) and len(set(lits_a)) == 1:
+            same_guards = finmodel.equivalent(pa, pb) is True
+    yield ob(R, fa, "melody.raw_chroma_accuracy:guards", same_guards, "raw chroma accuracy has the same emptiness/zero exits as raw pitch accuracy")
     va = [c.callee for c in a.calls() if (c.callee or "").startswith("melody.validate")]
     vb = [c.callee for c in b.calls() if (c.callee or "").startswith("melody.validate")]
     yield ob(R, fa, "melody.raw_chroma_accuracy:validation", va == vb and len(va) == 2, "same validation calls %s" % vb)
